@@ -152,6 +152,16 @@ def lifecycle(run):
                         clauses = inv.inv_qbytes(stored) if stored.cls.name == "QBytesTensor" else inv.inv_qbits(stored)
                         for nme, f in clauses:
                             run.add(f"C09/compact:{nme}[{tag}]/path{pi}", r.hyps, f, "property", inst, replay=rp)
+                        # the stored weight holds no autograd history (a retained graph keeps the float weight alive and breaks deepcopy)
+                        def inner(t_):
+                            for v_ in t_.fields.values():
+                                if isinstance(v_, STensor):
+                                    yield v_
+                                elif is_wrapper(v_):
+                                    yield from inner(v_)
+                        hist = sorted(v_.name for v_ in inner(stored) if v_.attrs.get("grad_fn") or v_.requires_grad)
+                        run.add(f"C09/frozen-weight-keeps-no-autograd-history[{tag}]/path{pi}", r.hyps, z3.BoolVal(not hist), "property", inst, {"tensors_with_history": hist[:4]},
+                                replay=lambda mo, sd, i=dict(inst): replay_history(mo, sd, i))
                         if stored.cls.name == "QBytesTensor":
                             run.add(f"C09/compact:one-byte-per-element[{tag}]/path{pi}", r.hyps, z3.BoolVal(stored.fields["_data"].dtype in ("int8", "float8_e4m3fn", "float8_e5m2")), "property", inst, replay=rp)
                     for o in r.obligations:
@@ -388,6 +398,30 @@ def replay_freeze(model, seed, inst):
             want = -(-rows * bits // 8) * (w._data.numel() // rows)
             if w._data._data.numel() != want:
                 return {"what": "packed payload is not ceil(rows*bits/8) x (numel/rows) bytes", "payload_bytes": w._data._data.numel(), "expected": want, "rows": rows}
+    return None
+
+
+def replay_history(model, seed, inst):
+    """After freeze() (called with autograd recording on, the default) no tensor of the stored weight has autograd history."""
+    import copy
+    import torch
+    from optimum.quanto import qtypes
+    from optimum.quanto.nn import QConv2d, QLinear
+
+    torch.manual_seed(seed)
+    kw = {"weights": qtypes[inst["weights"]], "activations": qtypes[inst["activations"]] if inst.get("activations") else None}
+    m = QLinear(16, 4, **kw) if inst["module"] == "linear" else QConv2d(4, 2, 1, **kw)
+    m.freeze()
+    w = m.weight
+    inner = [getattr(w, n) for n in ("_data", "_scale", "_zeropoint") if hasattr(w, n)]
+    bad = [type(t).__name__ for t in inner if getattr(t, "grad_fn", None) is not None or t.requires_grad]
+    if bad:
+        return {"what": "a tensor of the frozen weight still carries autograd history (grad_fn): the graph of the float weight is retained", "tensors": bad}
+    if inst["weights"] in ("qint8", "qfloat8_e4m3fn"):
+        try:
+            copy.deepcopy(m)
+        except Exception as e:
+            return {"what": f"copy.deepcopy of the frozen module raises {type(e).__name__}: {str(e)[:120]}"}
     return None
 
 
